@@ -26,9 +26,20 @@ unsafe impl GlobalAlloc for Counting {
     }
 }
 
-fn hex_str(len: usize, escaped: bool, out: &mut String) {
+/// a JSON string of exactly `len` decoded BYTES. `mb`: made of two-byte characters behind one ASCII byte, so that
+/// every even byte offset (all the caps are even) falls INSIDE a character - code that slices the string at a cap
+/// must not panic on it.
+fn hex_str(len: usize, escaped: bool, mb: bool, out: &mut String) {
     out.push('"');
-    if escaped {
+    if mb && len >= 3 {
+        out.push('a');
+        for _ in 0..(len - 1) / 2 {
+            out.push_str(if escaped { "\\u00e9" } else { "\u{e9}" });
+        }
+        if (len - 1) % 2 == 1 {
+            out.push('b');
+        }
+    } else if escaped {
         for i in 0..len {
             out.push_str(if i % 2 == 0 { "\\u0061" } else { "\\u0030" });
         }
@@ -43,6 +54,7 @@ fn hex_str(len: usize, escaped: bool, out: &mut String) {
 fn synth(c: &Value) -> String {
     let g = |k: &str| c[k].as_u64().unwrap() as usize;
     let escaped = g("escaped") == 1;
+    let mb = c.get("mb").and_then(|x| x.as_u64()).unwrap_or(0) == 1;
     let shape = c["shape"].as_str().unwrap();
     let mut s = String::with_capacity(g("nodes") * (g("nodeLen") + 3) * if escaped { 6 } else { 1 } + 8192);
     s.push('{');
@@ -53,14 +65,14 @@ fn synth(c: &Value) -> String {
     if shape == "wrongtype" {
         s.push_str("12");
     } else {
-        hex_str(g("root"), escaped, &mut s);
+        hex_str(g("root"), escaped, mb, &mut s);
     }
     s.push_str(",\"storage_proof\":[");
     for i in 0..g("nodes") {
         if i > 0 {
             s.push(',');
         }
-        hex_str(g("nodeLen"), escaped, &mut s);
+        hex_str(g("nodeLen"), escaped, mb, &mut s);
     }
     s.push(']');
     if shape != "missing" {
